@@ -103,6 +103,8 @@ class LibMixin:
     def bi_isinstance(self, pos, kw, st, exc, e):
         v, c = pos
         names = [it.py for it in tuple_items(c)] if c.ty.kind == "tuple" else [c.py]
+        if c.ty.kind == "func" and c.py in ("str", "int", "list", "tuple", "bool"):
+            return mk_bool(self.isinst(v, c.py, st))
         if c.ty.kind not in ("cls", "tuple") or any(not isinstance(n, str) for n in names):
             if v.ty.kind == "ref" and c.ty.kind == "cls":
                 return mk_bool(smt.app(self.ctx.fun("issub", [INT, INT], BOOL), BOOL, self.typeof(v.ts[0]), c.ts[0]))
@@ -325,6 +327,18 @@ class LibMixin:
             if smt.is_const(s):
                 return mk_str(self.format_model(smt.const_val(s), args, kw, st))
             return mk_str(self.uf("str_format", [s] + [self.to_u(a) for a in args], STR))
+        if name in ("split", "rsplit") and len(args) == 2 and args[0].ty.kind in ("str", "tstr") \
+                and args[1].ty.kind == "int" and smt.is_const(args[1].t) and smt.const_val(args[1].t) == 1:
+            # exact model of s.split(sep, 1) / s.rsplit(sep, 1): at most one cut, at the first / last occurrence
+            sep = self.coerce(args[0], TSTR, st).t
+            self.require_noexc(st, smt.Not(smt.Eq(sep, smt.Str(""))), "ValueError", "empty_separator", exc)
+            if name == "split":
+                k = smt.app("str.indexof", INT, s, sep, smt.Int(0))
+            else:
+                k = self.str_method(SV(TSTR, [s]), "rfind", [args[0]], {}, st, exc).t
+            n, m = smt.Len(s), smt.Len(sep)
+            two = smt.Concat(smt.Unit(smt.Substr(s, smt.Int(0), k)), smt.Unit(smt.Substr(s, smt.Add(k, m), smt.Sub(n, smt.Add(k, m)))))
+            return SV(ListT(TSTR), [smt.Ite(smt.Lt(k, smt.Int(0)), smt.Unit(s), two)])
         if name == "split" or name == "rsplit" or name == "splitlines":
             self.note("str.%s abstracted" % name)
             lst = self.ctx.fresh("split", smt.seq(STR))
